@@ -216,7 +216,7 @@ def run(ctx):
             for depth, tier in enumerate(tiers):
                 cands = []
                 for case, kind in frontier:
-                    for op_ in O.alphabet(tier):
+                    for op_ in O.alphabet_spec(tier):
                         if O.applicable(op_, kind):
                             cands.append({"src": case["src"], "ops": case["ops"] + [op_.name]})
                 if ctx.out_of_time():
